@@ -821,6 +821,25 @@ def case_dense(case, ctx, teneva, rng):
             box=[a, b], returned=got, exact_integral=float(ex))
     else:
         ctx.skip('sum-full-rejects', 'nearly-symmetric-box')
+    # boxes that are asymmetric per dimension but whose centres cancel over
+    # the dimensions (a = [-1, -3], b = [3, 1]) or whose bounds are permuted
+    # copies of a symmetric box: still not of the form a = -b
+    if d >= 2:
+        sh = [float(np.round(rng.uniform(0.5, 3), 2)) for _ in range(d)]
+        sh[-1] = -float(sum(sh[:-1]))
+        hw = [abs(x) + float(np.round(rng.uniform(0.5, 2), 2)) for x in sh]
+        a2 = [c_ - h_ for c_, h_ in zip(sh, hw)]
+        b2 = [c_ + h_ for c_, h_ in zip(sh, hw)]
+        if rng.random() < 0.5:
+            a2, b2 = np.array(a2), np.array(b2)
+        try:
+            got2 = teneva.func_sum_full(Ad, a2, b2)
+            ctx.viol('sum-full-rejects', 'func_sum_full accepted a box whose '
+                'per-dimension centres are non-zero but sum to zero',
+                box=[list(a2), list(b2)], returned=got2)
+        except ValueError:
+            ctx.held('sum-full-rejects')
+        ctx.event('sum-full-cancelling-centres')
     if d >= 2 and Att is not None:
         ctx.close('sum', teneva.func_sum(Att, fa, fb), ex, tsum,
             'func_sum vs the exact integral', box=[a, b], n=n)
